@@ -146,15 +146,17 @@ def rule_table(rep: Report, rid="C19.table") -> None:
     for sn, ctx in m.sinks:
         gs = nf.guards_in_ctx(ctx)
         kw = mr._kw(m, sn[2])
-        rm = [(c, p) for c, p in gs if c[0] == "call" and c[1] == "re.match"]
+        rm = [(c, p) for c, p in gs if c[0] == "call" and c[1] in ("re.match", "re.search", "re.fullmatch") and len(c[2]) == 2
+              and not (isinstance(c[2][1], tuple) and nf.contains(c[2][1], lambda x: x[0] in ("elem", "prop")))]
         ok = False
         found = None
         if len(rm) == 1 and rm[0][1] and is_const(rm[0][0][2][0]):
             pat = rm[0][0][2][0][1]
             subj = rm[0][0][2][1]
+            meth = rm[0][0][1].split(".", 1)[1]
             # the untrimmed line: get_line_text(0)
             raw_forms = [raw, ("slice", raw, const(0), NONE, NONE), mk_cond(mk_cmp("Gt", const(0), ("attr", line, N.INDENT)), trimmed, ("slice", raw, const(0), NONE, NONE))]
-            ok = regexnf.same(pat, 0, r"^\s{2,5}\|") and subj in raw_forms
+            ok = regexnf.same_test(pat, 0, meth, r"^\s{2,5}\|", 0, "search") and subj in raw_forms and meth != "fullmatch"
             found = regexnf.describe(pat) + " on " + fmt(subj, I)
         rep.ob(rid, "a table row is recognised only when the untrimmed line starts with two to five blanks and a pipe", ok, **kw,
                expected=regexnf.describe(r"^\s{2,5}\|") + " on the raw line", found=found)
@@ -196,15 +198,15 @@ def rule_table(rep: Report, rid="C19.table") -> None:
                 if t[0] == "lambda" and "re.match" in t[1]:
                     try:
                         lam = ast.parse(t[1], mode="eval").body
-                        pats.append(lam.body.args[0].value)
+                        pats.append((lam.body.args[0].value, "match"))
                     except Exception:
                         pass
                 if t[0] == "call" and t[1] in ("re.match", "re.fullmatch") and t[2] and is_const(t[2][0]):
-                    pats.append(t[2][0][1])
+                    pats.append((t[2][0][1], t[1].split(".", 1)[1]))
                 if t[0] == "attr" and t[2] in ("match", "fullmatch") and isinstance(t[1], tuple) and t[1] and t[1][0] == "regex" and is_const(t[1][1]) \
                         and (is_const(t[1][2], None) or is_const(t[1][2], 0)):
-                    pats.append(t[1][1][1])        # the bound match method of a compiled pattern, used as the predicate
-            ok_sep = bool(pats) and all(regexnf.same(p0, 0, r"^:?-+:?$") for p0 in pats) and ("prop", "table_cells", line) in allt
+                    pats.append((t[1][1][1], t[2]))        # the bound match method of a compiled pattern, used as the predicate
+            ok_sep = bool(pats) and all(regexnf.same_test(p0, 0, m0, r"^:?-+:?$", 0, "match") for p0, m0 in pats) and ("prop", "table_cells", line) in allt
         rep.ob(rid, "a GFM separator row (any cell of the form :?-+:?) is not a table row", ok_sep, **kw, expected="if any cell matches ^:?-+:?$: return False",
                found=[(fmt(c, I)[:120], p) for c, p in sep])
         rep.eq(rid, "a Markdown table row reports kind TableRow with the line's cells", [const("TableRow"), ("prop", "table_cells", line)], [sn[1].get("matched_type"), sn[1].get("items")], **kw)
